@@ -95,9 +95,9 @@ theorem evictLoop_terminates (est : Nat → Int) (incHits : Int) (key : Nat) (co
           subst this
           exact ⟨by simpa using hlen, fun p hp => by cases hp⟩
         · rename_i hlt
-          simp only [Bool.and_eq_true, List.all_eq_true, beq_iff_eq] at hvalid
+          simp only [Bool.and_eq_true, List.all_eq_true, beq_iff_eq, decide_eq_true_eq] at hvalid
           refine ⟨?_, ?_⟩
-          · have := hvalid.1.1
+          · have := hvalid.1.1.1
             simp only [List.length_append]
             omega
           · intro p hp
